@@ -1,3 +1,4 @@
+import Sparrow.Proofs.SourceLegClosed
 import Sparrow.Proofs.MonoGlueEquiv
 import Sparrow.Proofs.GlueEquiv
 import Sparrow.Proofs.LegKernelEquiv
@@ -191,3 +192,15 @@ theorem collectEnergyReceiverMono_additive (pw : Nat → Nat → Nat → Nat →
   Sparrow.collectEnergyReceiverMono_additive pw R P Bn S r rc B att g freq c dt k b t
 
 end Sparrow.Props.C11.MonoGlue
+
+namespace Sparrow.Props.C11.Closed
+open Sparrow Sparrow.Generated.LegKernels Sparrow.Generated.PointFactor
+
+/-- receiver leg, all of it translated -/
+theorem patch2receiverEnergy_closed (thr : ℝ) (P : Nat) (rec : Nat → ℝ) (pp : Nat → Nat → Nat → ℝ) (vis : Nat → Bool)
+    (s0 s1 s2 s3 : Nat) (i : Nat) (hi : i < P) :
+    patch2receiverEnergyUniversal (fun p q => ptSolutionReceiver thr p q 4) s0 rec P s1 s2 pp s3 vis i =
+      if vis i then ptReceiver thr (Vec3.ofFn rec) (ptsOf (fun v q => pp i v q)) 4 else 0 :=
+  Sparrow.patch2receiverEnergy_closed thr P rec pp vis s0 s1 s2 s3 i hi
+
+end Sparrow.Props.C11.Closed
